@@ -371,7 +371,17 @@ Definition tsd_touch (t : Z) (s : tsd) : tsd :=
   then mkD (d_ks s1) (d_ch s1) (d_add s1) (d_rem s1) (d_mod s1) (d_pub s1) (d_dt s1) (d_lmt s1) (rec_mod t (d_kslmt s1))
   else s1.
 
-Inductive dop := DSet (k v : Z) | DErase (k : Z) | DClear | DReserve (c : nat) | DTouch | DCreate (k : Z) | DNop.
+(* The element of a live key written through ITS OWN output view (TSDOutputView::at(k) is a read-only look-up,
+   then child.begin_mutation(t).copy_value_from(v)): no dictionary-level operation at all - this is how nested-graph
+   outputs and map_ children write.  The dictionary learns of it only through record_child_modified, which must
+   itself roll the delta window when this is the first thing that reaches the storage in the cycle. *)
+Definition tsd_write (t k v : Z) (s : tsd) : Z * tsd :=
+  match find_live (d_ks s) k with
+  | Some i => (0, tsd_child_write t i v s)
+  | None => (-2, s)
+  end.
+
+Inductive dop := DSet (k v : Z) | DErase (k : Z) | DClear | DReserve (c : nat) | DTouch | DCreate (k : Z) | DWrite (k v : Z) | DNop.
 
 Definition tsd_op (t : Z) (o : dop) (s : tsd) : Z * tsd :=
   match o with
@@ -381,6 +391,7 @@ Definition tsd_op (t : Z) (o : dop) (s : tsd) : Z * tsd :=
   | DReserve c => (0, tsd_reserve c s)
   | DTouch => (0, tsd_touch t s)
   | DCreate k => let '(i, s') := tsd_at t k s in (zn i, s')
+  | DWrite k v => tsd_write t k v s
   | DNop => (-1, s)
   end.
 Definition tsd_cycle (t : Z) (ops : list dop) (s : tsd) : tsd :=
